@@ -283,6 +283,17 @@ def gate(base, got):
     return ("error" if nerr else "equal"), []
 
 
+def best_problem(probs):
+    """the most telling problem first: a panic, then a different listing, a different value, ..., a missing call"""
+    rank = {"panic": 0, "different": 2, "ok-where-intact-errs": 3, "extra": 4, "missing": 5}
+    def key(p):
+        r = rank.get(p.get("kind"), 6)
+        if p.get("kind") == "different" and p.get("id", "").split(":")[0] in ("walk", "children"):
+            r = 1
+        return r
+    return sorted(probs, key=key)
+
+
 def unhex_id(i):
     """call id 'kind:<hexpath>[...]' -> readable"""
     parts = i.split(":")
@@ -346,6 +357,7 @@ def trunc_sweep(ctx, files, workdir, viol, cov):
                     continue
                 seen += 1
                 if r.get("diffs"):
+                    r["diffs"] = best_problem(r["diffs"])
                     pf["hist"]["VIOLATION:" + r["diffs"][0]["kind"]] += 1
                     d = r["diffs"][0]
                     viol.append(dict(what="%s cut to %d of %d bytes: %s -> %s (%s)" % (tag, r["cut"], pf["size"], unhex_id(d["id"]), d["kind"], d.get("got", "")[:80]),
@@ -480,8 +492,10 @@ def strace_read_sweep(ctx, files, baselines, viol, cov, budget_total):
             cls, probs = gate(baselines[tag], got)
             per_file[tag]["hist"][kind + ":" + cls] += 1
             if cls == "violation":
+                probs = best_problem(probs)
                 d = probs[0]
-                viol.append(dict(what="%s: pread64 #%d fails (%s): %s -> %s" % (tag, k, kind, unhex_id(d["id"]), d["kind"]),
+                viol.append(dict(what="%s: pread64 #%d fails (%s): Open succeeds, %s -> %s (intact %s, observed %s)" % (
+                                     tag, k, kind, unhex_id(d["id"]), d["kind"], str(d.get("intact"))[:40], str(d.get("got"))[:40]),
                                  failing_input=dict(kind="strace-read", file=path, origin=origin, syscall="pread64", inject=spec, when=k),
                                  call=unhex_id(d["id"]), intact=d.get("intact"), observed=d.get("got"), problems=probs[:4]))
     cov["strace_read"] = {t: dict(v, hist=dict(v["hist"])) for t, v in per_file.items()}
